@@ -382,6 +382,33 @@ class Square(Shape):
 def shapes() -> List[Shape]: return [Circle("c", 1.5), Square("s", 3.0)]
 def any_shape(i: int) -> Union[Circle, Square]: return [Circle("c", 1.5), Square("s", 3.0)][i]
 
+# interface hierarchies: interface -> plain class -> class, and interface extending an interface
+@interface
+@dataclass
+class INode:
+    ident: int
+@dataclass
+class Stamped(INode):
+    ts: int = 0
+@dataclass
+class Article(Stamped):
+    title: str = ""
+@interface
+@dataclass
+class IEntity:
+    ident: int
+@interface
+@dataclass
+class INamed(IEntity):
+    label: str = ""
+@dataclass
+class Account(INamed):
+    email: str = ""
+def inodes() -> List[INode]: return [Article(1, 2, "t"), Stamped(3, 4)]
+def ientities() -> List[IEntity]: return [Account(1, "n", "e")]
+def inamed() -> List[INamed]: return [Account(2, "m", "f")]
+def one_article() -> Article: return Article(5, 6, "u")
+
 @dataclass
 class WithId:
     id: uuid.UUID
@@ -535,6 +562,35 @@ def world_checks(st: infra.Stats):
             viol("world_error_handler", f"{r.data} {r.errors}")
     except Exception as e:
         viol("world_schema_build", f"interfaces world: {e!r}", op="interfaces", exc=type(e).__name__)
+    # interface hierarchies: an object / interface implements every interface-marked ancestor of its MRO
+    try:
+        s = graphql_schema(query=[m.inodes, m.ientities, m.inamed, m.one_article], types=[m.Article, m.Stamped, m.Account])
+        st.case("world", "interface_hierarchy")
+        errs = graphql.validate_schema(s)
+        if errs:
+            viol("world_interface_hierarchy", f"schema does not validate: {[e.message for e in errs][:3]}", op="validate")
+        tm = s.type_map
+        exp_ifaces = {"Article": ["INode"], "Stamped": ["INode"], "Account": ["INamed", "IEntity"], "INamed": ["IEntity"], "INode": [], "IEntity": []}
+        for tn, exp in exp_ifaces.items():
+            got = [i.name for i in getattr(tm.get(tn), "interfaces", ())]
+            if sorted(got) != sorted(exp):
+                viol("world_interface_hierarchy", f"{tn} implements {got}, expected {exp} (every interface class among its ancestors)", op="implements:" + tn)
+        for tn in ("INode", "IEntity", "INamed"):
+            if not isinstance(tm.get(tn), graphql.GraphQLInterfaceType):
+                viol("world_interface_hierarchy", f"{tn} is {tm.get(tn)!r}, expected an interface type", op="kind:" + tn)
+        camel = apischema.utils.to_camel_case
+        for q, exp in (
+            ("{ inodes { ident ... on Article { title ts } ... on Stamped { ts } } }", {"inodes": [serialize(m.Article, m.Article(1, 2, "t"), aliaser=camel), {"ident": 3, "ts": 4}]}),
+            ("{ ientities { ident ... on INamed { label } ... on Account { email } } }", {"ientities": [serialize(m.Account, m.Account(1, "n", "e"), aliaser=camel)]}),
+            ("{ inamed { ident label ... on Account { email } } }", {"inamed": [serialize(m.Account, m.Account(2, "m", "f"), aliaser=camel)]}),
+            ("{ oneArticle { ident ts title } }", {"oneArticle": serialize(m.Article, m.Article(5, 6, "u"), aliaser=camel)}),
+        ):
+            st.case("world", "interface_hierarchy", q)
+            r = graphql.graphql_sync(s, q)
+            if r.errors or r.data != exp:
+                viol("world_interface_hierarchy", f"{q}: data={r.data} errors={[e.message for e in (r.errors or [])][:2]} expected {exp}", op="exec")
+    except Exception as e:
+        viol("world_schema_build", f"interface hierarchy world: {e!r}", op="interface_hierarchy", exc=type(e).__name__)
     # resolvers of a flattened object returning object types (also when the type was / was not built before)
     for order, ops_ in (("flattened first", [m.device, m.owner_first]), ("plain first", [m.owner_first, m.device])):
         try:
@@ -581,7 +637,7 @@ def world_checks(st: infra.Stats):
 def work(tier, widx, nworkers, st, extra):
     import os
 
-    if widx == 0 and not os.environ.get("VERIF_ONLY"):
+    if widx == 0 and os.environ.get("VERIF_ONLY") in (None, "", "world"):
         try:
             world_checks(st)
         except Exception:
